@@ -485,6 +485,59 @@ fn inf_minus_inf_cases(cx: &mut Cx, rng: &mut Rng) {
     }
 }
 
+/// a zero whose sign the interval cannot know ([-1, 1] * 0, and(-0.0, y), ceil of a small negative number) fed to
+/// the two operators that hash the bit pattern of their operand
+fn hashed_zero_cases(cx: &mut Cx, rng: &mut Rng) {
+    use vharness::tapes::GOp;
+    for zero in 0..5 {
+        for hash in 0..4 {
+            // slots: 0 = x, 1 = y, 2 = the zero, 3 = the hash
+            let mut ssa = vec![GOp::new(0, "Output", -1, 3, 0, 0), GOp::new(0, "Output", -1, 2, 1, 0)];
+            ssa.push(match hash {
+                0 => GOp::new(3, "Rand", 3, 2, -1, 0),
+                1 => GOp::new(4, "Mix", 3, 2, -1, bits(1.0)),
+                2 => GOp::new(5, "Mix", 3, 2, -1, bits(1.0)),
+                _ => GOp::new(6, "Mix", 3, 2, 1, 0),
+            });
+            ssa.push(match zero {
+                0 => GOp::new(4, "Mul", 2, 0, -1, bits(0.0)),
+                1 => GOp::new(4, "Mul", 2, 0, -1, bits(-0.0)),
+                2 => GOp::new(3, "Ceil", 2, 0, -1, 0),
+                3 => GOp::new(6, "And", 2, 0, 1, 0),
+                _ => GOp::new(4, "Min", 2, 0, -1, bits(0.0)),
+            });
+            ssa.push(GOp::new(1, "Input", 1, 1, -1, 0));
+            ssa.push(GOp::new(1, "Input", 0, 0, -1, 0));
+            let p = Prog { ssa, nvars: 2 };
+            let xs = match zero {
+                2 => vec![Interval::new(-0.9, -0.1), Interval::new(-0.5, 0.5)],
+                3 => vec![Interval::new(-0.0, -0.0), Interval::new(0.0, 0.0), Interval::new(-0.0, 0.0)],
+                4 => vec![Interval::new(-0.0, 3.0), Interval::new(0.0, 2.0), Interval::new(-0.0, -0.0)],
+                _ => vec![Interval::new(-1.0, 1.0), Interval::new(-3.0, -1.0), Interval::new(0.0, 2.0), Interval::new(-2.0, 0.0)],
+            };
+            for xb in xs {
+                for yb in [Interval::new(2.5, 2.5), Interval::new(0.0, 0.0), Interval::new(-0.0, -0.0)] {
+                    let bx = vec![xb, yb];
+                    let mut pts = box_samples(rng, &bx, 4);
+                    for xv in [xb.lower(), xb.upper(), 0.0, -0.0] {
+                        if xv >= xb.lower() && xv <= xb.upper() {
+                            for yv in [yb.lower(), yb.upper(), 0.0, -0.0] {
+                                if yv >= yb.lower() && yv <= yb.upper() {
+                                    pts.push(vec![xv, yv]);
+                                }
+                            }
+                        }
+                    }
+                    let (Ok(vmf), Ok(jf)) = (vm_fn::<255>(&p), jit_fn(&p)) else { continue };
+                    let pf = |q: &[f32]| point_trace(&vmf, q).out;
+                    e2e(cx, "vm-hashzero", &vmf, &pf, 2, &bx, &pts, false, &p);
+                    e2e(cx, "jit-hashzero", &jf, &pf, 2, &bx, &pts, false, &p);
+                }
+            }
+        }
+    }
+}
+
 /// every unary operator on boxes that are a few ulps wide, at magnitudes from 0.5 to 1e9: all the floats of the
 /// box are sampled (the trigonometric operators classify rounded angles into quadrants)
 fn narrow_cases(cx: &mut Cx, quick: bool) {
@@ -568,6 +621,7 @@ fn main() {
     overflow_cases(&mut cx, &mut rng);
     zero_times_inf_cases(&mut cx, &mut rng);
     inf_minus_inf_cases(&mut cx, &mut rng);
+    hashed_zero_cases(&mut cx, &mut rng);
     narrow_cases(&mut cx, quick);
     transformed::<VmFunction>(&mut cx, "vm", &mut rng, if quick { 300 } else { 4000 });
     transformed::<JitFunction>(&mut cx, "jit", &mut rng, if quick { 300 } else { 4000 });
